@@ -360,6 +360,32 @@ def rule_G(ctx):
                         'speed is planimetric distance over elapsed time: one-sided at both ends, centred elsewhere, NaN exactly when the elapsed time is 0')
                 found.setdefault((what, 'value'), (f, desc, dict(case, **{'feature': got if not isinstance(got, list) else [g_ if isinstance(g_, (int, float)) else repr(g_) for g_ in got],
                                                                          'expected': want, 'first index that differs': k_bad})))
+            # a piece cut out of a track (extractSpanTime: fixes 1 ... n-1) gets the feature computed, then the track itself: the piece reads what a track
+            # built from those fixes reads, and the track it was cut from reads its own values
+            if kname == 'Python numbers' and n >= 3 and 'extractSpanTime' in ctx.prog.cls('tracklib.core.track.Track').methods:
+                n_cases += 1
+                try:
+                    t2 = build()
+                    P_ = t2.fields['_Track__POINTS']
+                    piece = t2.call('extractSpanTime', P_[1].fields['timestamp'], P_[n - 1].fields['timestamp'])
+                    run_(piece)
+                    run_(t2)
+                    got_piece = piece.call('getAnalyticalFeature', feat)
+                    fresh = T([O(k, EN(float(p_[0]), float(p_[1]), float(p_[2])), stamp(*tm)) for k, (p_, tm) in enumerate(zip(pts, times)) if secs[1] <= secs[k] <= secs[n - 1]], 'u', 't')
+                    run_(fresh)
+                    want_piece = fresh.call('getAnalyticalFeature', feat)
+                    after = t2.call('getAnalyticalFeature', feat)
+                except orders.Unsupported as ex:
+                    raise shape_error('%s on an extracted piece not interpretable: %s' % (call, ex), f.loc())
+                except (ZeroDivisionError, IndexError, KeyError, TypeError, AttributeError, ValueError, orders.Raised, RecursionError) as ex:
+                    found.setdefault((what, 'fails'), (f, '%s does not fail' % call, dict(case, history='a piece is cut out with extractSpanTime; computed on the piece, then on the track', exception='%s: %s' % (type(ex).__name__, str(ex)[:160]))))
+                    continue
+                same_piece = isinstance(got_piece, list) and isinstance(want_piece, list) and len(got_piece) == len(want_piece) and all(close(a_, b_) for a_, b_ in zip(got_piece, want_piece))
+                same_orig = isinstance(after, list) and len(after) == len(again) and all(close(a_, b_) for a_, b_ in zip(after, again))
+                if not same_piece or not same_orig:
+                    found.setdefault((what, 'piece'), (f, '%s computed on a piece cut out of a track (extractSpanTime) reads as on a track built from those fixes, and the track it was cut from keeps its own values' % what,
+                                                       dict(case, **{'piece': 'fixes 1 ... %d' % (n - 1), 'feature of the piece': got_piece, 'expected for the piece': want_piece,
+                                                                     'feature of the track the piece was cut from': after, 'expected for that track': again})))
     # the running sum itself, on a feature whose first value is not 0 (ds is): Y[0] = 0, Y[i] = Y[i-1] + X[i]
     fi_ = ctx.prog.func(OPS + '.Integrator.execute')
     for xs in ([5.0, 1.0, 2.0, 4.0], [3.0], [2.0, 0.0, 0.0, 7.0, 0.0], [1.5, -1.5, 2.0]):
